@@ -28,6 +28,25 @@ func init() {
 	ops["rand_u8"] = opRandU8
 	ops["decode_shared"] = opDecodeShared
 	ops["unprotect_shared"] = opUnprotectShared
+	ops["decode_raw"] = opDecodeRaw
+}
+
+// opDecodeRaw: plain decoding of a given datagram (own copy).
+func opDecodeRaw(w *World, s *Step) (string, string) {
+	res := &callResult{}
+	var got *MsgSpec
+	guard(res, func() {
+		m := new(message.IKEMessage)
+		if res.Err = m.Decode(rxBuffer(s.Data, 0)); res.Err != nil {
+			return
+		}
+		got = extract(m)
+	})
+	h := uint64(0)
+	if got != nil {
+		h = fnv1a(0, got.canon())
+	}
+	return fmt.Sprintf("%s:%x:%s", res.class(), h, errKey(res.Err)), "decode_raw:" + res.class()
 }
 
 // opUnprotectShared: a decoder with its OWN key object unprotects a datagram
